@@ -188,12 +188,16 @@ type rigSink struct {
 	discard bool
 	buf     bytes.Buffer
 	failAt  int
+	stallUs int64 // a slow disk: every write takes this long
 	n       int
 	e       *Env
 }
 
 //go:norace
 func (s *rigSink) Write(p []byte) (int, error) {
+	if s.stallUs > 0 && simrt.Cur() != nil {
+		simrt.Sleep(us(s.stallUs))
+	}
 	s.n++
 	if s.failAt > 0 && s.n == s.failAt {
 		return 0, errInjected
@@ -268,6 +272,9 @@ func (rg *Rig) buildKind(kind string, seed int64) (interceptor.Factory, error) {
 		rs, cs := &rigSink{e: rg.e, discard: rg.soak}, &rigSink{e: rg.e, discard: rg.soak}
 		if chance(r, 150) {
 			rs.failAt = 1 + r.Intn(5)
+		}
+		if !rg.soak {
+			rs.stallUs = int64(pick(r, 0, 0, 0, 300, 3000))
 		}
 		rg.dumps = append(rg.dumps, rs, cs)
 		opts := []packetdump.PacketDumperOption{packetdump.RTPWriter(rs), packetdump.RTCPWriter(cs), packetdump.WithLoggerFactory(lf)}
@@ -498,6 +505,11 @@ func (rg *Rig) bindRTCPWriter() {
 		}
 		if rg.logRTCP(o) {
 			e.Fault("rtcp_writer_err")
+			if rg.cfg.RTCPWErrAt%2 == 0 {
+				// what a transport that has just gone away reports
+				e.Fault("rtcp_writer_err_closed_pipe")
+				return 0, errInjectedClosed
+			}
 			return 0, errInjected
 		}
 		return len(o.raw), nil
@@ -622,7 +634,7 @@ func (rg *Rig) rtcpFor(o RigOp) []byte {
 			base := uint16(r.Intn(65536))
 			for _, st := range rg.cfg.Local {
 				if st.SSRC == ssrc {
-					base = st.Seq0 + uint16(r.Intn(200))
+					base = st.Seq0 + uint16(r.Intn(pick(r, 20, 200)))
 				}
 			}
 			n := &rtcp.TransportLayerNack{SenderSSRC: 1, MediaSSRC: ssrc}
